@@ -907,6 +907,10 @@ def mon_c17(spec, run):
         ex = [e for e in tr if e["k"] == "thread_exit" and e["th"] == role]
         if started and not ex:
             bad.append(("thread-alive", f"library thread {role} keeps running after connection_check()"))
+        elif ex and ex[0]["t"] > r0["t"]:
+            # close() joins the reader, which joins the sender: with callbacks that return at once and writes that do not block both
+            # time-outs (2 s each) are never reached, so both threads are gone when connection_check() returns
+            bad.append(("thread-left-running", f"library thread {role} was still running when connection_check() returned (it ended {(ex[0]['t'] - r0['t']) / 1000:.1f} ms later)"))
     return [b if len(b) == 2 else (b[0], b[1]) for b in bad]
 
 
